@@ -164,8 +164,6 @@ func (sc *Scanner) scanNumber(ch int, buf *bytes.Buffer) error {
 				return sc.Error(buf.String(), "illegal hexadecimal number")
 			}
 			return nil
-		} else if sc.Peek() != '.' && isDecimal(sc.Peek()) {
-			ch = sc.Next()
 		}
 	}
 	sc.scanDecimal(ch, buf)
@@ -176,6 +174,9 @@ func (sc *Scanner) scanNumber(ch int, buf *bytes.Buffer) error {
 		writeChar(buf, sc.Next())
 		if ch = sc.Peek(); ch == '-' || ch == '+' {
 			writeChar(buf, sc.Next())
+		}
+		if !isDecimal(sc.Peek()) {
+			return sc.Error(buf.String(), "malformed number")
 		}
 		sc.scanDecimal(sc.Next(), buf)
 	}
